@@ -13,6 +13,7 @@ import (
 	"fmt"
 	"os"
 	"strings"
+	"syscall"
 
 	"verif/engine"
 )
@@ -432,6 +433,27 @@ func buildSeed(t *engine.T, s seedT) ([]byte, [][2]int, bool) {
 	return seed, pr, true
 }
 
+var devTimes = os.Getenv("C13_DEV_TIMES") == "1"
+
+func cpuMillis() int64 {
+	var ru syscall.Rusage
+	syscall.Getrusage(syscall.RUSAGE_SELF, &ru)
+	return (ru.Utime.Sec+ru.Stime.Sec)*1000 + int64(ru.Utime.Usec+ru.Stime.Usec)/1000
+}
+
+// kase is c.Case; with C13_DEV_TIMES=1 (development aid) the CPU time of every executed case goes to stderr.
+func kase(c *engine.Ctx, name string, fn func(t *engine.T)) {
+	if !devTimes {
+		c.Case(name, fn)
+		return
+	}
+	c.Case(name, func(t *engine.T) {
+		t0 := cpuMillis()
+		defer func() { fmt.Fprintf(os.Stderr, "CPU %7d ms  %s\n", cpuMillis()-t0, name) }()
+		fn(t)
+	})
+}
+
 func runEP(c *engine.Ctx, e *epT) {
 	quick := c.Quick()
 	if quick && e.thoroughOnly {
@@ -442,7 +464,7 @@ func runEP(c *engine.Ctx, e *epT) {
 	if e.shortMax1 {
 		shortMax = 1
 	}
-	c.Case(fmt.Sprintf("%s/short<=%d", e.name, shortMax), func(t *engine.T) {
+	kase(c, fmt.Sprintf("%s/short<=%d", e.name, shortMax), func(t *engine.T) {
 		x := newCx(t, e)
 		n := engine.EachShort(shortMax, func(b []byte) { x.run("short", b) })
 		x.finish("-", n)
@@ -450,7 +472,7 @@ func runEP(c *engine.Ctx, e *epT) {
 	if !quick && e.fast && !e.shortMax1 {
 		for chunk := 0; chunk < 16; chunk++ {
 			lo, hi := chunk*16, chunk*16+15
-			c.Case(fmt.Sprintf("%s/short=3/b0=%02x-%02x", e.name, lo, hi), func(t *engine.T) {
+			kase(c, fmt.Sprintf("%s/short=3/b0=%02x-%02x", e.name, lo, hi), func(t *engine.T) {
 				x := newCx(t, e)
 				n := 0
 				var b [3]byte
@@ -470,7 +492,7 @@ func runEP(c *engine.Ctx, e *epT) {
 	if e.der {
 		for _, p := range nestProbes {
 			p := p
-			c.Case(e.name+"/"+p, func(t *engine.T) {
+			kase(c, e.name+"/"+p, func(t *engine.T) {
 				x := newCx(t, e)
 				m := nestProbe(p)
 				if m == nil {
@@ -496,7 +518,7 @@ func runEP(c *engine.Ctx, e *epT) {
 		allValues := e.small && !(quick && e.costly)
 		for k := 0; k < K; k++ {
 			k := k
-			c.Case(fmt.Sprintf("%s/%s/mut1/%d-of-%d", e.name, s.name, k, K), func(t *engine.T) {
+			kase(c, fmt.Sprintf("%s/%s/mut1/%d-of-%d", e.name, s.name, k, K), func(t *engine.T) {
 				x := newCx(t, e)
 				seed, pr, ok := buildSeed(t, s)
 				if !ok {
@@ -545,7 +567,7 @@ func runEP(c *engine.Ctx, e *epT) {
 			const P = 8
 			for k := 0; k < P; k++ {
 				k := k
-				c.Case(fmt.Sprintf("%s/%s/pair2/%d-of-%d", e.name, s.name, k, P), func(t *engine.T) {
+				kase(c, fmt.Sprintf("%s/%s/pair2/%d-of-%d", e.name, s.name, k, P), func(t *engine.T) {
 					x := newCx(t, e)
 					seed, pr, ok := buildSeed(t, s)
 					if !ok {
@@ -591,7 +613,7 @@ func (Prop) Run(c *engine.Ctx) {
 		runEP(c, e)
 	}
 	if filter != "" {
-		c.Case("dev-filter-active", func(t *engine.T) { t.Eval(1); t.Cap("C13_DEV_FILTER=" + filter + ": partial run, not evidence") })
+		kase(c, "dev-filter-active", func(t *engine.T) { t.Eval(1); t.Cap("C13_DEV_FILTER=" + filter + ": partial run, not evidence") })
 	}
 }
 
